@@ -22,11 +22,18 @@ everywhere in C05.
   the chunk's capacity, below the bump pointer of the arena that still allocates from it; the guard
   (`record_guarded`) holds in index form; and the chunker's buffered tail is a live detached slice
   (`reader_chunks_live`).
-* WHAT bytes are returned is the subject of C06 / C08 (byte-level `Model/Stream.lean`); the correspondence
-  families `chunkerw` / `readerw` compare the world-level model with the real code on the bytes AND on the
-  placement (chunk ordinal, offset, length) of every slice handed out and on the live set after every call.
+* WHAT bytes are returned is the subject of C06 / C08 (byte-level `Model/Stream.lean`).  CHUNKER: the
+  world-level chunker returns exactly the byte-level chunker's chunks, for every history (`pump_world_agrees`,
+  `chunker_world_agrees`; `Proofs/StreamWorldRef.lean`).  READER: each `pump` inside `next_record_bytes` is that
+  same `pumpW`, so `pump_world_agrees` applies to it whenever `CRel` holds; NOT proved: that `decode_anchored`
+  of a chunk keeps `CRel` (the decoder's copies land above the chunker's buffered tail: a heap-frame lemma for a
+  SECOND held slice) and that the iovec then holds `Stream.Rec.bytes` (the simulation `SimV` of
+  `Proofs/EncWorldAnch.decFeed_simH` for a chunk of a foreign `AnchoredSlice`), hence `nextW ⊑ Stream.next` —
+  an open item.  The correspondence families `chunkerw` / `readerw` compare the world-level model with the
+  real code on the bytes AND on the placement (chunk ordinal, offset, length) of every slice handed out and on
+  the live set after every call.
 -/
-import Woodpile.Proofs.StreamWorld
+import Woodpile.Proofs.StreamWorldRef
 import Woodpile.Props.C05
 
 namespace Woodpile.Props.C05S
@@ -129,6 +136,64 @@ theorem reader_chunks_live (clamp : Nat) (p : Params) (judge : Judge) (block : O
         a.slice.off + a.slice.len ≤ caps k := by
   obtain ⟨caps, _, h2⟩ := (nextW_rinv clamp p judge block h hn).exposed_live
   exact ⟨caps, h2⟩
+
+/-! ### The world-level chunker returns what the byte-level chunker (C08 / C06) returns -/
+
+/-- One `pump`: same verdict, same offset, the handle of a `Data` chunk names a non-empty detached slice of
+the world that holds exactly the byte-level chunk's bytes, same reader position and request sizes; and the
+world's `self.buf` keeps holding the byte-level buffer (`CRel`).  For ANY tuning / arena on the byte-level
+side (they do not influence its result: `Stream.pump_arena`). -/
+theorem pump_world_agrees (clamp : Nat) (X : ArenaAt) (block : Nat) (t : Tuning) (s : PumpSt) (c : Chunker) (m : Mem)
+    (res : PumpResW) (s' : PumpSt) (hrel : CRel s.w s.c c) (h : pumpW clamp X block s = some (res, s')) :
+    ResRel s'.w res (pump clamp t block c m s.r).res ∧ CRel s'.w s'.c (pump clamp t block c m s.r).chunker ∧
+    s'.r = (pump clamp t block c m s.r).reader ∧ s'.reqs = (pump clamp t block c m s.r).reqs :=
+  pumpW_refines clamp X block t s c m res s' hrel h
+
+/-- A new chunker is related to the byte-level `Chunker.new`. -/
+theorem chunker_new_rel (w : World) : CRel (ChunkerW.create w).1 (ChunkerW.create w).2 Chunker.new :=
+  ⟨⟨ASlice.empty, by
+      show (w.addASlice ASlice.empty).1.aslice w.aslices.length = _
+      rw [aslice_addASlice, if_pos rfl], sliceBytes_empty _, rfl⟩, rfl⟩
+
+/-- Every history of a new chunker and its caller — pumps with any block sizes on any arena, interleaved with
+the caller dropping chunks it was handed; any stream and reader script; from ANY world — returns, pump by pump,
+exactly the chunks of the byte-level chunker `Stream.pumpSeq` (verdicts, offsets and bytes), and leaves the
+reader where it leaves it.  So everything C08 / C06 prove about the chunks (tiling, no stuff sequence inside or
+across `Data` chunks, …) holds of the world-level chunker whose slices `chunk_slices_live` is about. -/
+theorem chunker_world_agrees (clamp : Nat) (X : ArenaAt) (t : Tuning) (w : World) (r : Reader) (ops : List COp)
+    (m : Mem) (rs : List PumpRes) (s' : PumpSt)
+    (h : chunkerRun clamp X ops ⟨(ChunkerW.create w).1, (ChunkerW.create w).2, r, []⟩ = some (rs, s')) :
+    rs = (pumpSeq clamp t (blocksOf ops) Chunker.new m r).1 ∧
+    s'.r = (pumpSeq clamp t (blocksOf ops) Chunker.new m r).2.2.2 := by
+  obtain ⟨h1, _, h3⟩ := chunkerRun_refines clamp X t ops _ Chunker.new m rs s' (chunker_new_rel w) h
+  exact ⟨h1, h3⟩
+
+/-- The `Data` chunk a `pump` hands out IS a non-empty detached slice of the world (its handle is not dangling),
+holds the byte-level chunk's bytes, and is live: own anchor, live chunk, inside the capacity, below the bump
+pointer. -/
+theorem data_chunk_live {clamp : Nat} {X : ArenaAt} {block : Nat} (t : Tuning) {s s' : PumpSt} {c : Chunker} (m : Mem)
+    {off hd : Nat} (hr : Reachable s.w) (hrel : CRel s.w s.c c)
+    (h : pumpW clamp X block s = some (.ok (.data off hd), s')) :
+    ∃ a bs, s'.w.aslice hd = some a ∧ (pump clamp t block c m s.r).res = .ok (.data off bs) ∧
+      s'.w.sliceBytes a.slice = bs ∧ a.slice.len ≠ 0 ∧ Live s'.w a.slice ∧
+      ∃ k, a.slice.region = .chunk k ∧ a.anchor.chunk = some k ∧
+        ∀ x ch, s'.w.cacheAt x = some ch → ch.chunk = k → a.slice.off + a.slice.len ≤ ch.bump := by
+  obtain ⟨h1, _, _, _⟩ := pumpW_refines clamp X block t s c m _ s' hrel h
+  cases hres : (pump clamp t block c m s.r).res with
+  | ioerr k => rw [hres] at h1; exact absurd h1 (by simp [ResRel])
+  | panic => rw [hres] at h1; exact absurd h1 (by simp [ResRel])
+  | ok ch =>
+    rw [hres] at h1
+    cases ch with
+    | sentinel o => exact absurd h1 (by simp [ResRel])
+    | eof => exact absurd h1 (by simp [ResRel])
+    | data o bs =>
+      obtain ⟨rfl, a, ha, hb, hl, hne⟩ := h1
+      have hl0 : a.slice.len ≠ 0 := by
+        rw [hl]; intro e; exact hne (List.length_eq_zero_iff.mp e)
+      obtain ⟨caps, hc⟩ := chunk_slices_live hr h
+      obtain ⟨g1, k, g2, g3, _, g5⟩ := hc hd a ha hl0
+      exact ⟨a, bs, ha, rfl, hb, hl0, g1, k, g2, g3, g5⟩
 
 /-! ### Non-vacuity -/
 
